@@ -19,7 +19,7 @@ var (
 )
 
 func c07Init(w *harness.World) {
-	v := harness.Choose(7, harness.ClassOp)
+	v := harness.Choose(8, harness.ClassOp)
 	w.Hist = append(w.Hist, fmt.Sprintf("init%d", v))
 	w.SetCollection("x", "nil")
 	three := func() {
@@ -56,6 +56,10 @@ func c07Init(w *harness.World) {
 		}
 		w.Flush()
 		w.Reopen(true)
+	case 7: // nothing durable, a 7-item tree none of which is written yet: every inner node has two dirty children
+		for i, k := range []string{"d", "b", "f", "a", "c", "e", "g"} {
+			w.SetItem("x", bs(k), int32(100-10*i), bs("v"+k))
+		}
 	case 5: // two collections, both with unflushed changes (x is written before y)
 		three()
 		w.SetCollection("y", "nil")
@@ -201,7 +205,7 @@ func c07ExecMon(depth int, maxFaults int, tornAll bool, mon harness.Monitors) ex
 func c07Profiles(tier string) []Profile {
 	sparse := "writes failing outright and after 0, 1, n/2, n-1 bytes applied"
 	rule := func(d int, torn string, rnd string) string {
-		return fmt.Sprintf("7 initial stores (empty; 3 items flushed and re-opened; two root records with the tree cached; a 7-item tree flushed and re-opened; durable state plus unflushed changes; two collections with unflushed changes in both; a 15-item tree of four full levels flushed and re-opened) x every history of length <= %d over Get/GetItem/Min/Totals/visit/iterator/Len/Exist/Set (overwrite and new key)/Delete (a key near the root, a key at depth 2 of the 7-item tree)/Evict/Flush/CopyTo(flushEvery 0,1; faults on the source and, separately, on the destination file)/FlushRevert/Reopen x one failing file call at every ReadAt/WriteAt/Stat/Truncate index, %s; eviction walks follow %s; the failed call is either retried at once or not retried (both explored) and the history continues fault-free; then a fixed suffix runs (re-open after a failed open/FlushRevert; Set; Flush; full read battery; copy of the file re-opened; Reopen; full read battery). Oracles: the failing call returns an error and no data, nothing panics or hangs, contents equal the model unchanged by the failed call, the file re-opens to a durable state of the model, the retried call and everything after behave per model", d, torn, rnd)
+		return fmt.Sprintf("8 initial stores (empty; 3 items flushed and re-opened; two root records with the tree cached; a 7-item tree flushed and re-opened; durable state plus unflushed changes; two collections with unflushed changes in both; a 15-item tree of four full levels flushed and re-opened; a 7-item tree with nothing written yet, so that a Flush writes inner nodes with two dirty children) x every history of length <= %d over Get/GetItem/Min/Totals/visit/iterator/Len/Exist/Set (overwrite and new key)/Delete (a key near the root, a key at depth 2 of the 7-item tree)/Evict/Flush/CopyTo(flushEvery 0,1; faults on the source and, separately, on the destination file)/FlushRevert/Reopen x one failing file call at every ReadAt/WriteAt/Stat/Truncate index, %s; eviction walks follow %s; the failed call is either retried at once or not retried (both explored) and the history continues fault-free; then a fixed suffix runs (re-open after a failed open/FlushRevert; Set; Flush; full read battery; copy of the file re-opened; Reopen; full read battery). Oracles: the failing call returns an error and no data, nothing panics or hangs, contents equal the model unchanged by the failed call, the file re-opens to a durable state of the model, the retried call and everything after behave per model", d, torn, rnd)
 	}
 	if tier != "thorough" {
 		return []Profile{{Name: "single", Exec: c07Exec(2, 1, false), Budget: map[int]int{explore.ClassFault: 1, explore.ClassRand: 0}, ShardLevel: 3,
